@@ -1,7 +1,7 @@
 """IEEE-754 binary64 values over z3 FP.  Only what the code under test needs: int<->float mixing,
 + - * /, comparisons (int vs float compared exactly, as CPython does), floor()."""
 import z3
-from .core import SymInt, SymBool, mk_bool, W, ctx, Unsupported, _bv
+from .core import simp, SymInt, SymBool, mk_bool, W, ctx, Unsupported, _bv
 
 F64 = z3.Float64()
 RNE = z3.RNE()
